@@ -1359,7 +1359,7 @@ func (m *Model) ruleCHECKPOINT(r *Results) {
 				store, via = st, nil
 			}
 			if c, ok := ins.(ssa.CallInstruction); ok && store == nil {
-				if h := c.Common().StaticCallee(); h != nil && m.inPkg(h) && h != cb.Common().StaticCallee() {
+				if h := c.Common().StaticCallee(); h != nil && m.inPkg(h) {
 					for _, hb := range h.Blocks {
 						for _, hi := range hb.Instrs {
 							if st := isMarkStore(hi); st != nil {
@@ -1389,6 +1389,16 @@ func (m *Model) ruleCHECKPOINT(r *Results) {
 			return false
 		}
 		base, vf, ok := fieldLoad(v)
+		if ok && vf.Name() == "Cas" {
+			if p, isP := stripConv(base).(*ssa.Parameter); isP && via != nil && p.Parent() == via.Common().StaticCallee() {
+				// the helper is handed the event itself
+				for i, q := range p.Parent().Params {
+					if q == p && i < len(via.Common().Args) {
+						return m.pulledValue(via.Common().Args[i])
+					}
+				}
+			}
+		}
 		return ok && vf.Name() == "Cas" && m.pulledValue(base)
 	}
 	var anchor ssa.Instruction = store
@@ -1398,7 +1408,13 @@ func (m *Model) ruleCHECKPOINT(r *Results) {
 	// value = Cas of the pulled event
 	r.check(isEvCas(store.Val), rule, name+" / delivered CAS is the event's", m.instrPos(store), "the delivered-CAS mark is taken from the event just pulled", "the delivered-CAS mark is not the CAS of the event that was just delivered")
 	// after the callback
-	r.check(instrReachable(cb, anchor, nil) && (cb.Block() == anchor.Block() || cb.Block().Dominates(anchor.Block())), rule, name+" / mark after delivery", m.instrPos(store), "the mark advances only after the callback has run for that event", "the mark can advance before the event has been handed to the callback: a stop in between persists a checkpoint beyond what was delivered")
+	afterCb := instrReachable(cb, anchor, nil) && (cb.Block() == anchor.Block() || cb.Block().Dominates(anchor.Block()))
+	if via != nil && via == cb {
+		// callback and mark sit in the same delivery helper: order them there
+		inner := m.innerCallback(via.Common().StaticCallee())
+		afterCb = inner != nil && instrReachable(inner, store, nil) && (inner.Block() == store.Block() && indexIn(inner.Block(), inner) < indexIn(store.Block(), store) || inner.Block() != store.Block() && inner.Block().Dominates(store.Block()))
+	}
+	r.check(afterCb, rule, name+" / mark after delivery", m.instrPos(store), "the mark advances only after the callback has run for that event", "the mark can advance before the event has been handed to the callback: a stop in between persists a checkpoint beyond what was delivered")
 	// only upwards
 	up := false
 	conds := controllingConds(store.Parent(), store.Block())
